@@ -171,4 +171,15 @@ def c05_4(c: Ctx) -> None:
     check_no_inline_processing_after_completion(c)
 
 
+@ob('C05.5', 'EFFECT/SHAPE', 'nothing but the awaited child is waiting at the head of a queue because of the library itself: a running bus takes its queued events without unbounded delay (the run loop '
+    'awaits only step(): same obligation as C15.6) and events enter a queue only at its tail (same obligation as C02.2) — a backlog parked in a running bus, or an event inserted '
+    'ahead of the child, is what the in-handler await then runs first')
+def c05_5(c: Ctx) -> None:
+    from .c02 import c02_2
+    from .c15 import check_runloop_only_awaits_step
+
+    check_runloop_only_awaits_step(c)
+    c02_2(c)
+
+
 OBLIGATIONS = ob.obs
